@@ -2,6 +2,11 @@ use crate::alloc::{format, Vec};
 use crate::error::MockError;
 use crate::{debug, MockFnInfo};
 
+#[cfg(unimock_verif)]
+use crate::verif::AtomicUsize;
+#[cfg(unimock_verif)]
+use core::fmt::Display;
+#[cfg(not(unimock_verif))]
 use core::{fmt::Display, sync::atomic::AtomicUsize};
 
 pub(crate) struct CallCounter {
@@ -13,6 +18,11 @@ impl CallCounter {
     pub fn fetch_add(&self) -> usize {
         self.actual_count
             .fetch_add(1, core::sync::atomic::Ordering::SeqCst)
+    }
+
+    #[cfg(unimock_verif)]
+    pub(crate) fn verif_actual_count(&self) -> &AtomicUsize {
+        &self.actual_count
     }
 
     pub fn verify(
